@@ -38,7 +38,23 @@ def module(fam):
     if m is None:
         check_build()
         m = _mods[fam] = importlib.import_module('BTrees.%sBTree' % fam)
+        for kind in TREE_KINDS:
+            for suffix in ('', 'Py'):
+                c = getattr(m, fam + kind + suffix)
+                _defaults[(fam, kind, suffix)] = (c.max_leaf_size, c.max_internal_size)
     return m
+
+
+_defaults = {}
+
+
+def reset_sizes(fam):
+    """Back to the node sizes the classes had when first imported in this process."""
+    m = module(fam)
+    for (f, kind, suffix), (l, i) in _defaults.items():
+        if f == fam:
+            c = getattr(m, fam + kind + suffix)
+            c.max_leaf_size, c.max_internal_size = l, i
 
 
 def cmodule(fam):
